@@ -72,6 +72,12 @@ def cases(run: Run):
             c["x0"] = [float(rng.randint(-50, 50)) for _ in range(3)] + [rng.randint(-8, 8) / 4.0 for _ in range(3)]
             c["times"] = sorted({float(rng.randint(1, int(span))) for _ in range(c["ntimes"])} | {span})
         out.append(c)
+    # a day-long perturbed arc of a high orbit with the Sun and the Moon, split after a third: over a day the third bodies move by a degree (Sun) and
+    # thirteen (Moon), so anything that stops following them between calls, or from one stage to the next, shows
+    for _ in range(run.n(1, 4)):
+        out.append({"kind": "split", "model": "sp", "method": rng.choice(["RK45", "DOP853"]), "seed": rng.randint(0, 10**6), "dur": 86400.0, "long": True,
+                    "orbit": {"a": rng.choice([42164.0, 60000.0]), "e": rng.choice([0.0, 0.3]), "i": rng.choice([0.1, 1.0]), "O": rng.uniform(0, 2 * math.pi), "w": 0.0, "nu": rng.uniform(0, 2 * math.pi)},
+                    "sp": {"degree": 2, "bodies": ["sun", "moon"], "srp": False, "gr": False}, "t0": 0.0, "frac": rng.choice([1 / 3, 0.5]), "K": 2, "layout": "C", "ntimes": 2})
     # batches whose members differ in everything that is evaluated per member: radiation pressure on, one member in low orbit (in and out of
     # the Earth's shadow), others high and always lit - so that a quantity computed once per batch instead of once per member shows
     for _ in range(run.n(3, 20)):
@@ -304,7 +310,11 @@ def oracle(run: Run, c, impl):
                 break
     if c["kind"] == "bulk":
         for k, (b, s) in enumerate(zip(o["bulk"], o["single"])):
-            same("bulk", b, s, f"output {k} of propagateBulk (t={o['times'][k]:.2f}) against a separate propagate call")
+            last = k == len(o["bulk"]) - 1
+            # the last requested time is the end of the very same integration as the separate call (measured agreement 4e-12 km); the earlier ones are
+            # read off the solver's interpolant (measured up to 7e-6 km)
+            same("bulk", b, s, f"output {k} of propagateBulk (t={o['times'][k]:.2f}{', the final time' if last else ''}) against a separate propagate call with the same integrator",
+                 pt=1e-8 if last else 5e-5, vt=1e-11 if last else 5e-8)
             if fails:
                 break
     if c["kind"] == "reuse":
